@@ -342,7 +342,9 @@ static void range_ops(mon::Rng& rng)
         std::string what = mon::fmt("unverified_safe_pointer_because<%s*>(start=base+%llu, count=%s): host element %zu bytes, guest element %zu bytes, %s bytes to region end", tn,
                                     (unsigned long long)off, mon::i128s(cnt).c_str(), hs, gs, mon::i128s(static_cast<i128>(R.size) - off).c_str());
         if (cnt == 0) n_empty++;
-        else if (!legal_g) { if (!ab) report("unverified_safe_pointer_because", "illegal-request-proceeded", what); else n_illegal_abort++; } // whole *sandbox* elements
+        // the raw pointer that comes back has the APPLICATION's element type and designates SANDBOX objects: the count is
+        // certified only if that many whole elements fit under both readings
+        else if (!legal_g || !legal_h) { if (!ab) report("unverified_safe_pointer_because", "illegal-request-proceeded", what); else n_illegal_abort++; }
         else if (legal_g && legal_h) {
           if (ab) report("unverified_safe_pointer_because", "legal-request-aborted", what);
           else if (reinterpret_cast<uintptr_t>(raw) != static_cast<uintptr_t>(start)) report("unverified_safe_pointer_because", "wrong-pointer", what);
@@ -396,7 +398,9 @@ static void usp_big(mon::Rng& rng)
         std::string what = mon::fmt("unverified_safe_pointer_because<%s*>(start=base+%llu, count=%s): host element %zu bytes, guest element %zu bytes, %s bytes to region end", tn,
                                     (unsigned long long)off, mon::i128s(cc).c_str(), hs, gs, mon::i128s(static_cast<i128>(R.size) - off).c_str());
         if (cc == 0) n_empty++;
-        else if (!legal_g) { if (!ab) report("unverified_safe_pointer_because", "illegal-request-proceeded", what); else n_illegal_abort++; } // whole *sandbox* elements
+        // the raw pointer that comes back has the APPLICATION's element type and designates SANDBOX objects: the count is
+        // certified only if that many whole elements fit under both readings
+        else if (!legal_g || !legal_h) { if (!ab) report("unverified_safe_pointer_because", "illegal-request-proceeded", what); else n_illegal_abort++; }
         else if (legal_g && legal_h) {
           if (ab) report("unverified_safe_pointer_because", "legal-request-aborted", what);
           else if (reinterpret_cast<uintptr_t>(raw) != static_cast<uintptr_t>(start)) report("unverified_safe_pointer_because", "wrong-pointer", what);
